@@ -52,6 +52,16 @@ REPAIRS = [("memret-prologue-clobbers-stack-arg", rep_memret), ("table-elem-offs
            ("float-stack-arg-staged-in-xmm4", rep_xmm4), ("memory-grow-qword-operand", rep_memgrow)]
 
 
+# known instruction-level defects that cannot be repaired in the assembly text are localised from the other side: the REFERENCE is
+# mutated to behave like the native template; if the native output then agrees, the difference is exactly that defect
+def mut_convert_u(wat):
+    """f32/f64.convert_i64_u are emitted with the signed cvtsi2ss/cvtsi2sd"""
+    return re.subn(r"\b(f32|f64)\.convert_i64_u\b", r"\1.convert_i64_s", wat)
+
+
+MUTATIONS = [("convert-i64-u-uses-signed-cvtsi2sd", mut_convert_u)]
+
+
 def native_status(rc):
     from checks import c02
     return c02.native_status(rc)
@@ -183,6 +193,12 @@ def one_program(ctx, B, h, wa, name, path):
     if agrees(nat, ref):
         res["verdict"] = "ok"
         return res
+    if nat["out"] == ref["out"] and ref["st"].startswith("trap:"):
+        # same output up to the trap; only the way the process ends differs (no trap handler natively)
+        kind = re.sub(r"[^a-z]+", "-", ref["st"][5:].split("|")[0].replace("wasm error:", "").strip().lower()).strip("-")
+        res["verdict"] = "trap-status"
+        res["trap"] = "%s:%s" % (kind, native_status(nat["rc"]))
+        return res
     # ---- localise by repairing the artefact
     text = open(asm).read()
     rl, wl = ref["out"].splitlines(), nat["out"].splitlines()
@@ -216,6 +232,20 @@ def one_program(ctx, B, h, wa, name, path):
         if natr is not None and agrees(natr, ref):
             break
     else:
+        # every textual repair is in: try the reference mutations
+        if natr is not None:
+            wat = open(os.path.join(d, "prog.wat")).read()
+            for mn, mf in MUTATIONS:
+                w2, n = mf(wat)
+                if not n:
+                    continue
+                with open(os.path.join(d, "prog.mut.wat"), "w") as f:
+                    f.write(w2)
+                ref2 = B.run_wazero(os.path.join(d, "prog.mut.wat"))
+                if agrees(natr, ref2):
+                    res["verdict"] = "differs"
+                    res["needed"] = chosen + ["ins:" + mn]
+                    return res
         res["verdict"] = "differs"
         res["needed"] = None
         if natr is not None:
@@ -237,8 +267,11 @@ def one_program(ctx, B, h, wa, name, path):
 def run_programs(ctx, B, h, dist, samples, nontrivial):
     wa = ctx.build_wa()
     quick = ctx.tier == "quick"
-    progs = [(n, p, None) for n, p in corpus_programs()] + [(n, p, None) for n, p in example_programs()]
-    progs += generated_programs(ctx, 12 if quick else 300)
+    ex = example_programs()
+    if quick:
+        ex = ctx.rng.sample(ex, min(6, len(ex)))
+    progs = [(n, p, None) for n, p in corpus_programs()] + [(n, p, None) for n, p in ex]
+    progs += generated_programs(ctx, 5 if quick else 300)
     with cf.ThreadPoolExecutor(16) as ex:
         results = list(ex.map(lambda a: one_program(ctx, B, h, wa, a[0], a[1]), progs))
     verdicts = {}
@@ -259,9 +292,12 @@ def run_programs(ctx, B, h, dist, samples, nontrivial):
         if r.get("asm_differs_from_cli"):
             ctx.proof["broken"].append({"theorem": "harness walinux == `wa native build`", "why": "assembly text differs for %s" % name})
         if r.get("wasm_target_same") is False:
-            ctx.violation("runtime:linux-target-output-differs-from-wasm-target",
-                          "%s: the linux-target WAT prints differently from `wa run` (wasm target) on the same runtime: %r" % (name, r.get("wasm_target_out", "")[:80]),
-                          {"program": name, "source": open(path).read()[:3000]})
+            # the default wasm target links a different runtime package (and lays memory out differently): informational only
+            dist.setdefault("wasm_target_output_differs", []).append(name)
+        if v == "trap-status":
+            ctx.violation("program:trap:" + r["trap"], "%s: WebAssembly traps (%s); the native executable prints the same output and then ends with %s instead of a non-zero exit with a message" % (
+                name, r["ref_status"], r["trap"].split(":", 1)[1]), {"program": name, "source": open(path).read()[:3000]})
+            continue
         if v == "ok":
             if len(samples) < 10:
                 samples.append({"program": name, "lines": r.get("lines"), "status": r.get("ref_status")})
@@ -274,9 +310,16 @@ def run_programs(ctx, B, h, dist, samples, nontrivial):
                 {"program": name, "first_diff": r["first_diff"], "after_all_repairs": r.get("after_all_repairs"), "source": src[:4000]})
         else:
             for nm in r["needed"]:
+                if nm.startswith("ins:"):
+                    ctx.violation("native-ins:" + nm[4:], "%s: native output differs at line %d (native %r, wasm %r); the native output is what WebAssembly computes when `%s` is emulated in the reference" % (
+                        name, r["first_diff"]["line"], r["first_diff"]["native"][:60], r["first_diff"]["wasm"][:60], nm[4:]),
+                        {"program": name, "first_diff": r["first_diff"], "explained_by": r["needed"], "source": src[:4000]})
+                    continue
                 ctx.violation("native:" + nm, "%s: native output differs at line %d (native %r, wasm %r); repairing `%s` in the emitted assembly makes it agree" % (
                     name, r["first_diff"]["line"], r["first_diff"]["native"][:60], r["first_diff"]["wasm"][:60], nm),
                     {"program": name, "first_diff": r["first_diff"], "repairs_needed": r["needed"], "source": src[:4000]})
+    dist["program_details"] = [{"program": r["name"], "needed": r.get("needed"), "first_diff": r.get("first_diff"), "after_all_repairs": r.get("after_all_repairs")}
+                               for r in results if r["verdict"] == "differs"][:60]
     dist["program_verdicts"] = verdicts
     dist["program_rejected"] = {k: v[:6] for k, v in sorted(rejected.items())[:30]}
     dist["feature_counts"] = feats
